@@ -12,1102 +12,1222 @@ Definition show_fres (r : fres) : string :=
   end.
 Definition check (rs : list rune) : string := digest (show_fres (format_res rs)).
 Definition full (rs : list rune) : string := show_fres (format_res rs).
-Eval vm_compute in ("<<<M232>>>" ++ check (runes_of_ascii "// packet A { u8 x, }
-root packet rootA
-    {
-repeat char[]int
-    /// triple
-    `it's` , string asx @calculatedFrom(""a\""b"") //x
-`tab	here`	, falsey `` , repeat string
-    metadata ``
-//
-// " ++ [27880; 37322]%N ++ runes_of_ascii "
-,  match
-x
-    // @lengthOf(
-    as	chars{007 : lengthOf ""// no comment"" :o	,
-[ """ ++ [233]%N ++ runes_of_ascii "t" ++ [233]%N ++ runes_of_ascii """] //	t
-: len , [ 0123456789
-    ,
-    007 ,""" ++ [233]%N ++ runes_of_ascii "t" ++ [233]%N ++ runes_of_ascii """, // trailing space 
-42 , 0123456789
-, ""packet"" , 00	]
-    : x , } ,  match pack as int
-{ [ // a // b
-1
-    , ""a\""b""
-,
-    ""a\""b""	]:x
-,} ,
-} root packet	int
-    {
-char[10] len @lengthOf(	string_) , @calculatedFrom( ""1""
-) repeat
-    //	t
-    packetx {
-    char[ 42 ] Foo , a1 A  , repeat zchar[1  ] i8i8
-`a\` ,	zchar[
-4294967296 ]
-x_y_z@lengthOf( T )`` , }, char
-chars , repeat zchar[255 ] tag
-    `tab	here`
-,
-    @calculatedFrom(""it's"" //	t
-) // packet A { u8 x, }
-char[ 00 ] BodyLength
-//x
-// " ++ [128512]%N ++ runes_of_ascii " emoji
-``  ,
-//	t
-/// triple
-} packet asx
-    {zchar[
-255	]x
-@lengthOf(
-int)
-, } MetaData repeatCount{a1 Logon , u8x As
-, char[
-    /// triple
-    00	]// c
-metadata
-    `line1
-line2`, i32 Logon
-    `it's`,string falsey ,
-}
-    packet Z9_
-// trailing space 
-// " ++ [27880; 37322]%N ++ runes_of_ascii "
+Eval vm_compute in ("<<<M1407>>>" ++ check (runes_of_ascii "
+packet  o	// @lengthOf(
+
 {
-options1
-{ u32
-    MetaDataX
-, char[ 1]
-// " ++ [128512]%N ++ runes_of_ascii " emoji
-//x
-x	@lengthOf( Header ) ,	repeatCount
-    /// triple
-    x_y_z, } ,	float ,
-repeat packetx Z9_,@rightPad (
-// trailing space 
-// trailing space 
-' ' ) asx
-{string	asx @lengthOf( uint8x // c
-),	packetx , char[ 007 ] metadata ,  } ,
-    }
-")).
-Eval vm_compute in ("<<<M380>>>" ++ check (runes_of_ascii "options {
-	StringPrefixLenType = u16;
-	ArrayPrefixLenType = u16;
-}
-
-packet SampleBinary {
-	uint16 MsgType `" ++ [28040; 24687; 31867; 22411]%N ++ runes_of_ascii "`,
-	u16 BodyLenght @lengthOf(Body) `" ++ [28040; 24687; 20307; 38271; 24230]%N ++ runes_of_ascii "`,
-	match MsgType as Body {
-		1 : Logon,
-		2 : Logout,
-		3 : Heartbeat,
-		4 : RiskControlRequest,
-		5 : RiskControlResponse,
-	},
-		@calculatedFrom(""CRC32"")
-	u32 Ckecksum `" ++ [26657; 39564; 21644]%N ++ runes_of_ascii "`,
-}
-
-packet Logon {
-	 @leftPad('0')
-	char[10] UserName `" ++ [29992; 25143; 21517]%N ++ runes_of_ascii "`,
-	string Password `" ++ [23494; 30721]%N ++ runes_of_ascii "`,
-	uint64 ClientId `" ++ [23458; 25143; 31471]%N ++ runes_of_ascii "ID`,
-	u16 HeartbeatInterval `" ++ [24515; 36339; 38388; 38548]%N ++ runes_of_ascii "`,
-}
-
-packet Logout {
-	  @rightPad('0')
-	char[10] UserName `" ++ [29992; 25143; 21517]%N ++ runes_of_ascii "`,
-	uint64 ClientId `" ++ [23458; 25143; 31471]%N ++ runes_of_ascii "ID`,
-}
-
-packet Heartbeat {
-}
-
-packet RiskControlRequest {
-	string UniqueOrderId `" ++ [21807; 19968; 35746; 21333; 21495]%N ++ runes_of_ascii "`,
-	char[16] ClOrdID `" ++ [23458; 25143; 35746; 21333; 21495]%N ++ runes_of_ascii "`,
-	char[3] MarketID `" ++ [24066; 22330]%N ++ runes_of_ascii "id`,
-	char[12] SecurityID `" ++ [35777; 21048; 20195; 30721]%N ++ runes_of_ascii "`,
-	char Side `" ++ [20080; 21334; 26041; 21521]%N ++ runes_of_ascii "`,
-	char OrderType `" ++ [35746; 21333; 31867; 22411]%N ++ runes_of_ascii "`,
-	u64 Price `" ++ [20215; 26684]%N ++ runes_of_ascii "`,
-	u32 Qty `" ++ [25968; 37327]%N ++ runes_of_ascii "`,
-	repeat string ExtraInfo `" ++ [38468; 21152; 20449; 24687]%N ++ runes_of_ascii "`,
-	repeat SubOrder {
-			char[16] ClOrdID `" ++ [23376; 35746; 21333; 21495]%N ++ runes_of_ascii "`,
-			u64 Price `" ++ [23376; 35746; 21333; 20215; 26684]%N ++ runes_of_ascii "`,
-			u32 Qty `" ++ [23376; 35746; 21333; 25968; 37327]%N ++ runes_of_ascii "`,
-		},
-}
-
-packet RiskControlResponse {
-	string UniqueOrderId `" ++ [21807; 19968; 35746; 21333; 21495]%N ++ runes_of_ascii "`,
-	i32 Status `" ++ [29366; 24577]%N ++ runes_of_ascii "`,
-	string Msg `" ++ [32467; 26524; 20449; 24687]%N ++ runes_of_ascii "`,
-	repeat Detail,
-}
-
-packet Detail {
-	string RuleName `" ++ [35268; 21017; 21517; 31216]%N ++ runes_of_ascii "`,
-	u16 Code `" ++ [21407; 22240; 20195; 30721]%N ++ runes_of_ascii "`,
-}")).
-Eval vm_compute in ("<<<M1368>>>" ++ check (runes_of_ascii "  options {LittleEndian	=true;
-StringPrefixLenType
-
-=
-
-    u16 ; ArrayPrefixLenType 
-=
-	u8
-; FixedStringPadChar  =' '
-    ; 
-}packet
-
-Ack
-
-    {
-
-@leftPad	(
-' ')char[
-5 ] lastPx 
-,
-zchar[	4 ]	count
-
-    ,  repeat InVenue30  {
-char[ 
-9 ]  Side2 ,
-    char[ 12 ]  venue
-,
-}
-
-    , } 
-packet
-	Order	{ int16
-    Note,  repeat	InAcct28
-    {	InSym3
-
-    { Ack ,char[  4]lastPx,
-    char[
-
-    1] venue , f32  Ref,	}, 
-repeat
-InTag729
-
-{char[
-	3 
-] Side2
-    ,
-
-uint64 Acct 
-,
-	char[] price
-    ,zchar[
-9 ]
-    Note
-
-    ,
-
-    zchar[9]
-    venue
-    ,
-},char[]
-count,
-Ack ,
-char[] Px, } ,u8
-	f1,
-Ack , 
-} packet
-
-    Fill{	zchar[7
-
-] 
-x
-,Order
-
-,
-
-    @leftPad  (
-' '
-) char[
-	9 ]
-
-    venue
-, 
-string	count 
-,	char[]  Flags
-, }	packet 
-Logon{
-    }	packet
-    Reject
-    { Order , char[]
-sym,
-}
-root packet Quote {string price
-
-,i64 Flags ,
-	repeat
-
-Fill
-,
-zchar[
-	9]
-x
-, f32 lastPx ,
-    repeat
-
-    Ack
-	, }
-")).
-Eval vm_compute in ("<<<M282>>>" ++ check (runes_of_ascii "// a // b
-root packet	uint8x
-{ repeat x
-    { tag
-@calculatedFrom( ""// no comment""
-)
-`it's`  , }
-,
-    //x
-    A
-//	t
-// @lengthOf(
-@calculatedFrom(// trailing space 
-""abc"") , uint64 zchar,
-//	t
-//	t
-zchar[7 ] msg_type , @calculatedFrom( """ ++ [28040; 24687]%N ++ runes_of_ascii """
-    // " ++ [27880; 37322]%N ++ runes_of_ascii "
-    )
-crc
-,
-    // `tick` ""quote"" 'q'
-    f32a Pad
-,	Header
-// 50% %s
-//x
-, // trailing space 
-zchar[42] x
-@calculatedFrom( ""\n"")`" ++ [28040; 24687; 31867; 22411]%N ++ runes_of_ascii "` , string len
-,
-    } packet
-    falsey {
-    // " ++ [27880; 37322]%N ++ runes_of_ascii "
-    i64_ @calculatedFrom(
-    ""{,}"" ) , repeat
-string chars,
-    // `tick` ""quote"" 'q'
-    zchar[ 7 ] calculatedFrom
-    ,Header
-    { char u
-    `crlf
-line` , repeat char[]	tag `a\` ,
-    Z9_ @lengthOf(T) // " ++ [27880; 37322]%N ++ runes_of_ascii "
-`say ""hi""`
-,
-}
-,
-/// triple
-// " ++ [27880; 37322]%N ++ runes_of_ascii "
-msg_type @calculatedFrom( ""// no comment""
-) ,
-@rightPad( '\x00' ) @lengthOf(
-asx)
-falsey ,
-} // a // b")).
-Eval vm_compute in ("<<<M1392>>>" ++ check (runes_of_ascii "// top
-options // c0a
-  // c0b
-{ LittleEndian = // c3
-true
-    // c4
-; } // c6
-packet
-    // c7
-Sub { // c9a
-  // c9b
-u8 a // c11
-,
-    // c12
-@calculatedFrom( ""CRC16"" ) // c15a
-  // c15b
-u64 // c16a
-  // c16b
-SubSum // c17
-, // c18a
-  // c18b
-}
-    // c19
-root
-    // c20
-packet // c21a
-  // c21b
-Frame // c22
-{
-    // c23
-u16 // c24a
-  // c24b
-MsgType , // c26
-u16 BodyLen // c28a
-  // c28b
-@lengthOf( Body // c30
-) // c31
-, // c32a
-  // c32b
-Sub // c33a
-  // c33b
-Body , // c35
-string
-    // c36
-note
-    // c37
-,
-    // c38
-@calculatedFrom( // c39
-""CRC16""
-    // c40
-) // c41a
-  // c41b
-u64 Checksum
-    // c43
-,
-    // c44
-u8 // c45a
-  // c45b
-tail // c46
-, // c47
-} // c48a
-  // c48b
-")).
-Eval vm_compute in ("<<<M1868>>>" ++ check (runes_of_ascii "packet crc {
-    @calculatedFrom(""x y"")
-    char[] u8x,
-}
-
-root packet asx {
-    float32 u8x `doc`,
-}
-
-packet lengthOf {
-    repeat BodyLength {
-        match uint8x as matchKey {
-            ""\n"" : body,
-            00 : f32a,
-            """ ++ [233]%N ++ runes_of_ascii "t" ++ [233]%N ++ runes_of_ascii """ : rootA,
-            ""it's"" : crc,
-        },
-    },
-    @tag(42)
-    //
-    // " ++ [27880; 37322]%N ++ runes_of_ascii "
-    roots Z9_,
-    repeat leftPad {
-        u128 {
-            len lengthOf,
-            options1 A,
-            // `tick` ""quote"" 'q'
-            /// triple
-            u128 Header,
-        },
-    },
-    @leftPad(
-    ' ')
-    /// triple
-    repeat int32 u8x,
-}// @lengthOf(")).
-Eval vm_compute in ("<<<M51>>>" ++ check (runes_of_ascii "options {lengthOf // " ++ [128512]%N ++ runes_of_ascii " emoji
-=// `tick` ""quote"" 'q'
-true ; string_ =
-    ""a\\"" ;}
-root packet zchar
-{string_ // " ++ [27880; 37322]%N ++ runes_of_ascii "
-{ match
-//
-//x
-x as string_{
-    //	t
-    0: zchar  ,
-} ,
-    }
-    ,	@calculatedFrom(	""CRC32"" ) @tag( 42
-) repeat
-char[
-    4294967296 ] u `say ""hi""` ,
-    // 50% %s
-    @tag( 3 )  @leftPad ( ' ' ) @tag( // `tick` ""quote"" 'q'
-42	) match Header
-as A { 42 : Logon ,  } ,
-@tag(
-4294967296
-)i64_ `doc` ,} root packet
-x_y_z { @calculatedFrom( ""// no comment"" ) @leftPad ( ) @lengthOf( int)//	t
-u8x `" ++ [28040; 24687; 31867; 22411]%N ++ runes_of_ascii "`
-    ,
-    }
-")).
-Eval vm_compute in ("<<<M303>>>" ++ check (runes_of_ascii "
-options
-{  charz
-    = false ; Z9_
-    = ""\" ++ [233]%N ++ runes_of_ascii """ ;// c
-} options { falsey
-= char[] ;} packet metadata {
-@tag(
-    4294967296
-    ) match int as
-    float
-{
-[ 0 ,0123456789
-,  42 ,7 ,""a\""b"" , 7 ]
-: zchar
-, ""1""  :options1
-//
-// " ++ [128512]%N ++ runes_of_ascii " emoji
-,
-    }, @tag(10 ) match msg_type
-as Foo  { ""a	b"" : rootA , 65535
-    : roots /// triple
-, 00:// `tick` ""quote"" 'q'
-trueish,""\" ++ [233]%N ++ runes_of_ascii """
-    : MetaDataX,
-//x
-// 50% %s
-00
-    :Logon ,
-} ,repeat len packetx
-,
-    @lengthOf(Foo ) len`two words`	, roots, } //x")).
-Eval vm_compute in ("<<<M77>>>" ++ check (runes_of_ascii "packet string_ /// triple
-{ match
-MetaDataX as
-    /// triple
-    matchKey {[ ""1"" , ""x y"" ]
-: chars,
-}, @leftPad
-    ( ) char[]
-// c
-//	t
-body @lengthOf( // `tick` ""quote"" 'q'
-int ) , int16
-T
-, string
-// 50% %s
-/// triple
-int  @lengthOf( uint8x ),repeat chars Foo // `tick` ""quote"" 'q'
-, }	options {
-    msg_type
-    // a // b
-    =true
-    f32a =  ""packet"" } root packet u128{	zchar[
-007] metadata  @lengthOf( int)
-`100% of %d`,
-    }")).
-Eval vm_compute in ("<<<M1365>>>" ++ check (runes_of_ascii "
-options	{
-    LittleEndian	=
-
-true;
-
-StringPrefixLenType
-	=
-	u32 ; ArrayPrefixLenType =
-	u64
-
-    ; } packet Logon  { string  OrderId
-,uint32 lastPx,
-    repeat	char[6
-    ]Side2,
-    i64
-
-Tail
-	, repeat  i8 f1
-
-    ,
-
-    }
-
-    packet
-Party
-
-    {
-
-}
-	packet
-    Quote{
-repeat 
-char[
-6	]clOrdID ,  repeat Logon 
-,
-
-    }
-    root
-packet
-
-Order 
-{zchar[ 5
-    ] Acct,repeat f64 price , }
-
-")).
-Eval vm_compute in ("<<<M363>>>" ++ check (runes_of_ascii "packet
-i64_ {@calculatedFrom(""a	b"" ) match Logon as packetx	{ 10  :
-rootA ""it's"" : BodyLength,[ """ ++ [28040; 24687]%N ++ runes_of_ascii """ ,3 ]
-    :roots[
-    // packet A { u8 x, }
-    ""\" ++ [233]%N ++ runes_of_ascii """ ]  :
-rootA ,""{,}"" : chars, [  """ ++ [28040; 24687]%N ++ runes_of_ascii """ ] : pack , } ,
-    }
-    MetaData trueish
-{ u64	uint8x //
-`say ""hi""` , string uint8x `{ , }`
-, BodyLength uint8x
-//x
-// " ++ [27880; 37322]%N ++ runes_of_ascii "
-`{ , }` , char[]	pack`u8 x,`, // `tick` ""quote"" 'q'
-}
-")).
-Eval vm_compute in ("<<<M97>>>" ++ check (runes_of_ascii "packet o { @rightPad ( '\x00') @calculatedFrom(
-    ""a\""b""
-) @rightPad ( '0') char[// trailing space 
-255] zchar
-@calculatedFrom(
-""\" ++ [233]%N ++ runes_of_ascii """ ) ,
-char[
-// 50% %s
-//	t
-10 /// triple
-]
-    _x  `" ++ [28040; 24687; 31867; 22411]%N ++ runes_of_ascii "`,
-}	options {	}options{ Pad='0' ;} packet
-i64_ { repeat string // " ++ [128512]%N ++ runes_of_ascii " emoji
-zchar , @calculatedFrom( """"
-)	@lengthOf( Packet
-)
-    f32a
-// c
-// " ++ [27880; 37322]%N ++ runes_of_ascii "
-,}
-")).
-Eval vm_compute in ("<<<M40>>>" ++ check (runes_of_ascii "packet
-    len { // " ++ [27880; 37322]%N ++ runes_of_ascii "
-@leftPad( '0'
-    ) // trailing space 
-Logon @lengthOf( _x)
-`100% of %d`
-,char
-    rootA
-, @calculatedFrom( """ ++ [28040; 24687]%N ++ runes_of_ascii """ )
 @leftPad
-    (' ' ) // `tick` ""quote"" 'q'
-i8
-crc , msg_type
-@calculatedFrom( """"	)
-`
-`
-, // `tick` ""quote"" 'q'
-}	options//x
-{}
-options { u8x =true }
-")).
-Eval vm_compute in ("<<<M1774>>>" ++ check (runes_of_ascii "options{x
-    =  ""x y""	;}options 	 /// triple
-{
-    i8i8
-= 4294967296
-crc
-=  255
-// " ++ [128512]%N ++ runes_of_ascii " emoji
-	// 50% %s
-    ;
-string_
-    = 
-char[
-    //x
-		// a // b
+(
 
-255]
-
-    u= '\x00' ;BodyLength 
-=
-
-'0'
-}
-    packet 
-u
-	{
-
-float32
-
-    pack // `tick` ""quote"" 'q'
-,
-    }
-
-")).
-Eval vm_compute in ("<<<M1634>>>" ++ check (runes_of_ascii "packet
-len	{
-    @calculatedFrom(
-
-    ""{,}"")
-zchar[
-10 
-]  packetx `line1
-line2` 
-, @lengthOf( metadata
-) @calculatedFrom(
-	""a	b""
 )
-	matchKey
-@lengthOf(
-	As)
-,
-    chars
-    // 50% %s
-  // a // b
-      uint8x
 
-    `a\` , char[ 65535  ]Foo,
-	}
-")).
-Eval vm_compute in ("<<<M162>>>" ++ check (runes_of_ascii "options {i8i8
-    =	""\n"" Header =
-""x y""
-; /// triple
-} root
-    packet
-    A { match charz as
-    T
-    {
-    //
-    0:// trailing space 
-options1// `tick` ""quote"" 'q'
-}, }  packet float/// triple
-{ @rightPad ( ) repeat metadata`u8 x,` , }
-")).
-Eval vm_compute in ("<<<M538>>>" ++ check (runes_of_ascii "packet
-    asx { @calculatedFrom(
-""""  ) @tag( 255 )repeat
-// packet A { u8 x, }
-// trailing space 
-int16 ?u8x
-,
 @tag(
-    //
-    007 )
-    @tag( 0
-    /// triple
-    ) @tag( 1) u
-    @lengthOf( T ),
-// `tick` ""quote"" 'q'
-//x
-} // " ++ [128512]%N ++ runes_of_ascii " emoji")).
-Eval vm_compute in ("<<<M498>>>" ++ check (runes_of_ascii "packet
-    asx { @calculatedFrom(
-""""  ) @tag( 255 )repeat
-// packet A { u8 x, }
-// trailing space 
-int16 u8x
-,
-@tag(
-    //
-    007 )
-    @tag( 0
-    /// triple
-    ) @tag( 1) @lengthOf(
-    u T ),
-// `tick` ""quote"" 'q'
-//x
-} // " ++ [128512]%N ++ runes_of_ascii " emoji")).
-Eval vm_compute in ("<<<M421>>>" ++ check (runes_of_ascii "packet
-    asx { @calculatedFrom(
-""""  ) @tag(  )repeat
-// packet A { u8 x, }
-// trailing space 
-int16 u8x
-,
-@tag(
-    //
-    007 )
-    @tag( 0
-    /// triple
-    ) @tag( 1) u
-    @lengthOf( T ),
-// `tick` ""quote"" 'q'
-//x
-} // " ++ [128512]%N ++ runes_of_ascii " emoji")).
-Eval vm_compute in ("<<<M206>>>" ++ check (runes_of_ascii "options
-{ crc
-    ='\x00' ; uint8x = // " ++ [27880; 37322]%N ++ runes_of_ascii "
-""x y""; a1= """ ++ [28040; 24687]%N ++ runes_of_ascii """
-o =
-    '\x00'
-// trailing space 
-// trailing space 
-charz = 4294967296 //
-}
-    options  {
-    // " ++ [128512]%N ++ runes_of_ascii " emoji
-    stringy
-// `tick` ""quote"" 'q'
-// 50% %s
-= '0'; }
-")).
-Eval vm_compute in ("<<<M1474>>>" ++ check (runes_of_ascii "
-packet
+00 
+)
+    int16	int
 
-zchar 
-{@lengthOf(
-charz
+    @lengthOf( Header)
 
-) zchar@lengthOf(
-	Header	)
-	`
-`  ,
-	u8
-    calculatedFrom
-, @calculatedFrom( ""x y"" 
-) u128 @calculatedFrom( ""it's""  )
+`
+`
+	,@leftPad 
+( '\x00'
+)
+char[
 
-, }
-options
+00	// c
 
-{  float= 007  uint8x =  ""`tick`""; } ")).
-Eval vm_compute in ("<<<M1343>>>" ++ check (runes_of_ascii "packet u128 {
-    u8 a,
-}
-root packet Msg {
-    u8 k,
-    u24 {
-        u8 Hi,
-        u16 Lo,
-    },
-    repeat i24 {
-        u32 q,
-    },
-    u128,
-    u16 float32x,
-    string s,
-}
-")).
-Eval vm_compute in ("<<<M622>>>" ++ check (runes_of_ascii "MetaData u
-    { } MetaData o
-{ float uint8x
-`100% of %d` ,repeatCount u8x, string_ leftPad leftPad
-, i32
-    Foo , int64 x `two words` , calculatedFrom
-stringy `a\` ,
-}
-")).
-Eval vm_compute in ("<<<M1580>>>" ++ check (runes_of_ascii "
-packet A{
+] body
 
-match k 
-as
+    @lengthOf(  // packet A { u8 x, }
+  a1 ) `" ++ [28040; 24687; 31867; 22411]%N ++ runes_of_ascii "`
+    ,	}packet roots
 
-    n  {[
-    ""a"" 
-,
-
-    22
-
-, 
-""c c""  ,
-
-    4, ""e"",	66 ,
-    ""g""
-,
-    8 
-,
-
-    ""i""
-
-    ,10 ,  ""k""
-]
-:
-
-    B
-,2: C } ,
-
-}")).
-Eval vm_compute in ("<<<M704>>>" ++ check (runes_of_ascii "MetaData u
-    { } MetaData o
-{ float uint8x
-`100% of %d` ,repeatCount u8x, string_ leftPad
-, i32
-    " ++ [8232]%N ++ runes_of_ascii "Foo , int64 x `two words` , calculatedFrom
-stringy `a\` ,
-}
-")).
-Eval vm_compute in ("<<<M653>>>" ++ check (runes_of_ascii "MetaData u
-    { } MetaData o
-{ float uint8x
-`100% of %d` ,repeatCount u8x, string_ leftPad
-, i32
-    Foo , int64 `two words` x , calculatedFrom
-stringy `a\` ,
-}
-")).
-Eval vm_compute in ("<<<M606>>>" ++ check (runes_of_ascii "MetaData u
-    { } MetaData o
-{ float uint8x
-`100% of %d` ,repeatCount , string_ leftPad
-, i32
-    Foo , int64 x `two words` , calculatedFrom
-stringy `a\` ,
-}
-")).
-Eval vm_compute in ("<<<M1274>>>" ++ check (runes_of_ascii "
-packet	B
-    {
-
-    u8	a 
-,  } root
-
-    packet P{ u8	K,
-
-u64
-L @lengthOf(
-
-    Body
-
-    )
-
-    ,
-match
-    K  as
-	Body
-    { 1 :
-
-B
-,
-
-}  ,}
-")).
-Eval vm_compute in ("<<<M1309>>>" ++ check (runes_of_ascii "
-packet	A
-	{
-
-u8  a
-
-,
-
-}
-packet B
-    {
-
-u16	b
-
-    ,}root
-
-    packet
-	P
-
-{ u8
-
-    K
-,
-    match  K as M 
-{
-1 :
-A, 1
-
-    :
-	B , 
-} , } ")).
-Eval vm_compute in ("<<<M288>>>" ++ check (runes_of_ascii "packet
-    asx
-{ f32
-    u
-@calculatedFrom(
-""packet"" )  , } MetaData tag
-{ zchar[ 007 ] pack, zchar[00 ]// packet A { u8 x, }
-len`
-` , }")).
-Eval vm_compute in ("<<<M1772>>>" ++ check (runes_of_ascii "options {
-}
-
-options {
-    MetaDataX = char;
-}
-
-MetaData Pad {
-    i8 metadata,
-    // c
-    string stringy,
-    int8 As `{ , }`,
-}")).
-Eval vm_compute in ("<<<M1437>>>" ++ check (runes_of_ascii "options {
-}
-
-options {
-    MetaDataX = char;
-}
-
-MetaData Pad {
-    i8 metadata,
-    string stringy,
-    int8 As `{ , }`,
-}")).
-Eval vm_compute in ("<<<M1202>>>" ++ check (runes_of_ascii "
-// c
-options { } options { MetaDataX = char ; } MetaData Pad { i8 metadata , string stringy , int8 As `{ , }` , }")).
-Eval vm_compute in ("<<<M1226>>>" ++ check (runes_of_ascii "options { } options { MetaDataX = char ; } MetaData Pad
-// c
-{ i8 metadata , string stringy , int8 As `{ , }` , }")).
-Eval vm_compute in ("<<<M235>>>" ++ check (runes_of_ascii "// " ++ [128512]%N ++ runes_of_ascii " emoji
-packet lengthOf {zchar[
-1
-    ]u8x
-    `tab	here` ,}packet packetx{@leftPad ( ) f32a `it's`
-    , }")).
-Eval vm_compute in ("<<<M1565>>>" ++ check (runes_of_ascii "
-packet
-	u128  { } packet  _x/// triple
-	{
+    { Logon  `crlf
+line` ,
 
     } 
-MetaData  T {
-u128
-	f32a
-    // c
+packet 	 // `tick` ""quote"" 'q'
+  _x
+    // `tick` ""quote"" 'q'
+  //
+{
+zchar[  4294967296
+    ]Header `
+`
+	,
+	chars @calculatedFrom(  ""1"" )	// packet A { u8 x, }
+  ,
+match
+As
+    // 50% %s
+//
+		as 
+// @lengthOf(
+  //x
+  	A
+{
+""`tick`"" // " ++ [27880; 37322]%N ++ runes_of_ascii "
 
-,}
-	options {}
-")).
-Eval vm_compute in ("<<<M1902>>>" ++ check (runes_of_ascii "
-packet
-	A
-    {
-match k
-    as  n {
+: 
+u  }
 
-[""a""  ,
-""bb""
+    , repeat
+    string
+zchar, 
+repeat  packetx
+{
+	match
+    pack
+	//x
+    as
+
+lengthOf  {
+
+3  :
+calculatedFrom ,	3  
+  // packet A { u8 x, }
+	: metadata	,	""abc""  // " ++ [128512]%N ++ runes_of_ascii " emoji
+      :
+
+    falsey,4294967296
+    : len 
+,
+} ,	match
+
+    Packet 
+as
+    repeatCount 
+{ [
+""a\\""
+	,1, ""a\\""
+,
+
+0
+,""packet""
+	,
+    ""a	b""
+]
+:f32a
+
+, 
+4294967296 : tag 
+1:
+	packetx 
+, 
+[""\n""
+,42 
+,
+4294967296	,	""a	b"",
+10
+,
+
+255
+,
+007
+] :
+    chars
 
     ,
-	""c c""	,	""d"" 
-]  :  B 2 
-:
-C	} ,
+    [
+
+""1"" ,
+
+    ""// no comment""	, 
+0
+
+,// 50% %s
+	1 ,	""`tick`""	,3 
+, 
+42 
+,
+
+    ""\" ++ [233]%N ++ runes_of_ascii """
+]
+:BodyLength
+}
+	,// trailing space 
+	  } ,	string u8x`" ++ [28040; 24687; 31867; 22411]%N ++ runes_of_ascii "`	,  repeat
+
+    f32a
+{
+
+    char[
+
+7  ]  // " ++ [128512]%N ++ runes_of_ascii " emoji
+	x_y_z
+	`
+` // trailing space 
+,
+
+},
 
 }
 
-")).
-Eval vm_compute in ("<<<M874>>>" ++ check (runes_of_ascii "packet A {
-  match k as n {
-    [""a"", ""bb"", 007, ""d"", ""e"", 66, ""g"", ""h"", 9] : B
-    2 : C
-  },
-}")).
-Eval vm_compute in ("<<<M839>>>" ++ check (runes_of_ascii "packet A {
-  match k as n {
-    [""a"", ""bb"", ""c c"", ""d"", ""e"", ""f"", ""g""] : B,
-    2 : C
-  },
-}")).
-Eval vm_compute in ("<<<M826>>>" ++ check (runes_of_ascii "packet A {
-  match k as n {
-    [""a"", ""bb"", ""c c"", ""d"", ""e"", ""f""] : B,
-    2 : C
-  },
-}")).
-Eval vm_compute in ("<<<M864>>>" ++ check (runes_of_ascii "packet A {
-  match k as n {
-    [1, 22, 007, 4, 5, 66, 7, 8, 9] : B
-    2 : C
-  },
-}")).
-Eval vm_compute in ("<<<M829>>>" ++ check (runes_of_ascii "packet A {
-  match k as n {
-    [1, ""bb"", 007, ""d"", 5, ""f""] : B
-    2 : C
-  },
-}")).
-Eval vm_compute in ("<<<M816>>>" ++ check (runes_of_ascii "packet A {
-  match k as n {
-    [1, ""bb"", 007, ""d"", 5] : B
-    2 : C
-  },
-}")).
-Eval vm_compute in ("<<<M1919>>>" ++ check (runes_of_ascii "packet A {
-    B b `
-    x`,
-    B `
-    x`,
-    repeat B bs `
-    x`,
-}")).
-Eval vm_compute in ("<<<M789>>>" ++ check (runes_of_ascii "packet A {
-  match k as n {
-    [1, ""bb"", 007] : B,
-    2 : C
-  },
-}")).
-Eval vm_compute in ("<<<M118>>>" ++ check (runes_of_ascii "MetaData i64_ { zchar[ // " ++ [27880; 37322]%N ++ runes_of_ascii "
-0123456789 ]
-    i8i8
-    `" ++ [233]%N ++ runes_of_ascii "`,  }")).
-Eval vm_compute in ("<<<M1544>>>" ++ check (runes_of_ascii "  options
+MetaData
 
-{ A
-=
-    ""// no comment""
+    Packet
+	{
+chars
+u 
+,  char[]
+u8x, 
+
+// 50% %s
+  	// trailing space 
+      x_y_z 
+	/// triple
+	asx	`" ++ [28040; 24687; 31867; 22411]%N ++ runes_of_ascii "`
+
+, 
+int8
+	Header  `{ , }`	,
+	zchar[
+    4294967296
+
+    ]	rootA `u8 x,`  
+  /// triple
+    //
+    ,
+char[]
+
+    calculatedFrom
+, 
+}
+")).
+Eval vm_compute in ("<<<M1341>>>" ++ check (runes_of_ascii "// top
+packet
+    // c0
+Frame // c1a
+  // c1b
+{
+    // c2
+u8 // c3
+HK // c4
+, // c5
+u8 // c6
+BK , // c8a
+  // c8b
+u8
+    // c9
+TK // c10
+, match // c12
+HK
+    // c13
+as Hdr
+    // c15
+{ // c16a
+  // c16b
+1 // c17
+: // c18a
+  // c18b
+HdrA // c19a
+  // c19b
+, 2 // c21a
+  // c21b
+:
+    // c22
+HdrB , // c24
+}
+    // c25
+, // c26a
+  // c26b
+match // c27a
+  // c27b
+BK
+    // c28
+as
+    // c29
+Body { 1 // c32a
+  // c32b
+: // c33a
+  // c33b
+BodyA // c34a
+  // c34b
+, // c35a
+  // c35b
+2
+    // c36
+:
+    // c37
+BodyB , // c39a
+  // c39b
+} ,
+    // c41
+match
+    // c42
+TK // c43
+as Trl // c45a
+  // c45b
+{ 1 // c47
+: // c48
+TrlA // c49
+, // c50
+} ,
+    // c52
+}
+    // c53
+packet HdrA // c55
+{ // c56
+u8 // c57
+a // c58a
+  // c58b
+, // c59
+} // c60a
+  // c60b
+packet HdrB // c62
+{
+    // c63
+u16 b
+    // c65
+, } packet
+    // c68
+BodyA // c69
+{ // c70
+u32
+    // c71
+c
+    // c72
+, // c73
+}
+    // c74
+packet // c75
+BodyB // c76
+{ u64 d , // c80a
+  // c80b
+}
+    // c81
+packet // c82
+TrlA
+    // c83
+{ // c84a
+  // c84b
+u8 // c85
+e
+    // c86
+, // c87a
+  // c87b
+} root
+    // c89
+packet
+    // c90
+Msg // c91
+{ // c92
+Frame // c93a
+  // c93b
+, // c94a
+  // c94b
+u8 // c95a
+  // c95b
+x
+    // c96
+, // c97
+}
+    // c98
+")).
+Eval vm_compute in ("<<<M1514>>>" ++ check (runes_of_ascii "root packet o {
+    repeat zchar[65535] o,
+    repeat char[0] zchar,
+    int64 x `
+    `,// a // b
+    string msg_type,
+    // c
+    @leftPad('\x00')
+    repeat calculatedFrom A,
+    string Header @lengthOf(a1) `crlf
+    line`,
+    repeat crc {
+        f32 Pad,
+        match charz as Logon {
+            [
+                ""1"", ""CRC32"", """ ++ [28040; 24687]%N ++ runes_of_ascii """, 00, ""1"",
+                ""{,}"", """ ++ [28040; 24687]%N ++ runes_of_ascii """, ""{,}""
+            ] : uint8x,
+            [3, ""CRC32""] : lengthOf,
+            42 : u128,
+        },
+        Z9_,
+        float64 u128 `{ , }`,
+    },
+    u16 calculatedFrom,
+    zchar[3] calculatedFrom,
+    @tag(10)
+    match charz as _x {
+        ""abc"" : zchar,
+        ""packet"" : roots,
+        255 : options1,
+        ""1"" : uint8x,
+        // 50% %s
+    },
+}
+
+MetaData len {
+    uint8x len,
+}
+
+packet options1 {
+    @tag(10)
+    i8 roots @lengthOf(lengthOf),
+    char[1] u128 `" ++ [28040; 24687; 31867; 22411]%N ++ runes_of_ascii "`,
+    a1 tag `say ""hi""`,
+    string asx `// not a comment`,
+}
+
+packet calculatedFrom {
+    int64 a1,
+    // a // b
+    //x
+}")).
+Eval vm_compute in ("<<<M1891>>>" ++ check (runes_of_ascii "/// triple
+
+  packet  falsey{ }packet
+	Logon
+
+    {
+@tag(// @lengthOf(
+
+	1	) // c
+	body
+
+a1
+    ,
+	repeat
+
+    BodyLength ,repeat 
+Foo
+{ 
+match	rootA	as x	{[ 
+3 
+] 
+: 
+//
+	  i8i8 },
+    match
+    charz 
+as  // a // b
+  charz
+
+    {  007
+	: 
+Packet ,	[ ""// no comment""
+	] 	 // trailing space 
+
+:	/// triple
+
+  A,
+[
+
+    10]:  float
+	,
+
+    [	""`tick`"" ,  10]:
+    int
+
+    ,
+
+    } 
+, }
+
+    ,  // " ++ [27880; 37322]%N ++ runes_of_ascii "
+
+	repeat
+
+    u8x
+,asx
+
+    { int32
+    Packet
+	@calculatedFrom( 
+
+// 50% %s
+// a // b
+  ""// no comment"")
+, }
+	,
+    @lengthOf(
+leftPad )	int8
+	float 
+	    //
+
+  // @lengthOf(
+  	@calculatedFrom(  ""CRC32"" )
+
+    ,
+    lengthOf 	 // packet A { u8 x, }
+  {
+char[ 65535] string_@calculatedFrom(
+"""" ) 	 // a // b
+    ,
+}
+	, len@calculatedFrom(""" ++ [233]%N ++ runes_of_ascii "t" ++ [233]%N ++ runes_of_ascii """ )
+,  @lengthOf(
+
+    As
+) 
+char[
+	1	]
+    BodyLength// " ++ [27880; 37322]%N ++ runes_of_ascii "
+  , }	// a // b
+")).
+Eval vm_compute in ("<<<M194>>>" ++ check (runes_of_ascii "
+root
+    packet u8x{
+@calculatedFrom(	""it's""  )
+    zchar[
+    007 ]  Logon, @rightPad( ' ' ) @calculatedFrom(""\n"" ) @lengthOf( Header) repeat
+zchar[0 ] options1	,
+// " ++ [27880; 37322]%N ++ runes_of_ascii "
+// `tick` ""quote"" 'q'
+@lengthOf(i8i8
+    ) @lengthOf(
+repeatCount
+) zchar[
+65535  ] packetx
+`doc`	,
+    uint32 Foo	@calculatedFrom(
+""1"" ) , matchKey ,  int16  Header	,  } options {
+    x= 7 } MetaData
+// " ++ [27880; 37322]%N ++ runes_of_ascii "
+// `tick` ""quote"" 'q'
+string_
+    { trueish trueish  `it's`
+, char[4294967296 ]
+    x //x
+,
+    // a // b
+    string u
+    `100% of %d`, f32
+stringy
+    `// not a comment` ,
+    // `tick` ""quote"" 'q'
+    string
+    BodyLength	,// a // b
+}  options
+    { // @lengthOf(
+Logon = 10 roots = uint8 ;
+float=
+    ""a\\""  ; Header	=""CRC32"" ;
+    }")).
+Eval vm_compute in ("<<<M270>>>" ++ check (runes_of_ascii "packet crc
+    {// a // b
+@tag( 4294967296
+) @leftPad ('\x00'  ) repeat zchar[
+4294967296 // " ++ [128512]%N ++ runes_of_ascii " emoji
+]Packet
+, @leftPad ( '0')@tag( 3 ) @tag(
+    7  )  repeat  matchKey { u32
+u
+,} , @lengthOf(chars ) /// triple
+@calculatedFrom( ""a	b""
+// 50% %s
+// @lengthOf(
+)
+@tag( 0123456789 )zchar[255] Pad
+,
+repeat uint64 u128
+// a // b
+// trailing space 
+`two words` , @calculatedFrom( ""abc"" ) i8 packetx , string	lengthOf
+, // " ++ [27880; 37322]%N ++ runes_of_ascii "
+} root packet stringy
+{@leftPad (
+    '0' ) matchKey //x
+roots ,
+// @lengthOf(
+// trailing space 
+@tag( 7) int8// c
+A
+@lengthOf(repeatCount )
+    `{ , }` ,
+    repeat u {// " ++ [27880; 37322]%N ++ runes_of_ascii "
+int16 Foo `it's` , string u, }, } // @lengthOf(")).
+Eval vm_compute in ("<<<M1857>>>" ++ check (runes_of_ascii "
+
+  MetaData
+pack
+
+{ float32	Header  `two words`	//
+    ,
+	rootA
+charz 
+`" ++ [233]%N ++ runes_of_ascii "`,	//
+  int32
+
+falsey	`doc` 
+,
+	} 
+packet
+
+matchKey { i64_ {
+
+float64 tag
+
+    @lengthOf(	msg_type)
+    ,
+u8x
+
+f32a
+	,
+
+    Pad{
+	char[10] 
+// trailing space 
+    // @lengthOf(
+  f32a
+
+`// not a comment`
+	,
+}
+    ,
+
+int
+	{
+
+    repeat  packetx{
+    char[]	T
+	@calculatedFrom(""it's""
+	),
+}
+	, }
+,	}
+,
+
+    char[ 255]trueish
+@lengthOf(calculatedFrom 	 // " ++ [128512]%N ++ runes_of_ascii " emoji
+	) //	t
+
+  ,repeat	rootA string_,} packet x_y_z {@lengthOf( i64_
+
+)
+BodyLength  `" ++ [233]%N ++ runes_of_ascii "` 
+	    // @lengthOf(
+  	//	t
+, } ")).
+Eval vm_compute in ("<<<M1447>>>" ++ check (runes_of_ascii "
+
+  root
+
+    packet
+MetaDataX {u16	Logon
+
+@lengthOf(body)  ,	match
+
+    lengthOf as  As
+
+    { 
+    // " ++ [128512]%N ++ runes_of_ascii " emoji
+	7
+
+:
+    As
+    42
+    : 
+rootA ,
+    0123456789
+	:
+repeatCount ,	""abc""
+:
+	Packet
+, ""1"" 
+:	trueish 
+""a	b""	: 
+    //x
+// " ++ [128512]%N ++ runes_of_ascii " emoji
+		leftPad
+    ,
 
     }
 
+,match	x as A // 50% %s
+	  {""`tick`""
+
+: trueish	, } , uint32	u8x  `tab	here`
+, tag @calculatedFrom(
+	""" ++ [28040; 24687]%N ++ runes_of_ascii """
+) , repeat  body  //	t
+	repeatCount
+    ,	@calculatedFrom( ""x y"" )
+asx
+
+@calculatedFrom(// `tick` ""quote"" 'q'
+
+	""a\""b""
+	), } ")).
+Eval vm_compute in ("<<<M315>>>" ++ check (runes_of_ascii "root packet float  {  repeat
+calculatedFrom
+metadata`say ""hi""` , Pad
+{ // " ++ [27880; 37322]%N ++ runes_of_ascii "
+repeat string o `" ++ [233]%N ++ runes_of_ascii "`
+    ,
+match string_ //	t
+as	u8x{// trailing space 
+[ ""abc""] :
+pack ,  [
+    ""a	b"" ]
+: // `tick` ""quote"" 'q'
+len 00
+: x  [ ""packet""  ] : uint8x
+    , [
+    ""abc"" , """"
+    //	t
+    ,""{,}"", 0123456789,
+""`tick`"", """ ++ [28040; 24687]%N ++ runes_of_ascii """
+    ]://
+Foo ,	}, f64
+a1
     // c
- 
-")).
-Eval vm_compute in ("<<<M784>>>" ++ check (runes_of_ascii "packet A { Inner { match k as n { [1,22] : B, }, }, }")).
-Eval vm_compute in ("<<<M222>>>" ++ check (runes_of_ascii "options// packet A { u8 x, }
-{ i8i8 = '\x00' }
-")).
-Eval vm_compute in ("<<<M1575>>>" ++ check (runes_of_ascii "root packet A {
-    u8 x `a
-    
-    b`,
-}")).
-Eval vm_compute in ("<<<M1608>>>" ++ check (runes_of_ascii "MetaData M {
-}// c
+    `doc`
+, }
+, char[]	Pad `{ , }`  , } root packet a1 { repeat i64_ stringy	, // 50% %s
+}
+MetaData Packet {int32 tag , }")).
+Eval vm_compute in ("<<<M1956>>>" ++ check (runes_of_ascii "options {
+    ArrayPrefixLenType = u64;
+    FixedStringPadFromLeft = true;
+    FixedStringPadChar = '0';
+}
 
-MetaData N {
-}// d")).
-Eval vm_compute in ("<<<M1718>>>" ++ check (runes_of_ascii "
+packet Order {
+}
+
+root packet Leg {
+    char[] Ref,
+    repeat Order,
+    f32 Acct,
+    @leftPad('0')
+    char[10] venue,
+    @rightPad('0')
+    char[3] seqNo,
+    repeat u64 Px,
+    u8 Flags,
+    u32 lastPx @lengthOf(Body),
+    match Flags as Body {
+        185 : Order,
+    },
+    u16 sym @calculatedFrom(""CR\
+        C32""),
+}")).
+Eval vm_compute in ("<<<M1867>>>" ++ check (runes_of_ascii "packet NewOrder {
+    u32 qty,
+}
+
+packet Cancel {
+    u64 id,
+}
+
+packet Business {
+    u8 Kind,
+    match Kind as Detail {
+        1 : NewOrder,
+        2 : Cancel,
+    },
+}
+
+packet TcpFrame {
+    u8 T,
+    match T as Body {
+        1 : Business,
+    },
+}
+
+packet UdpFrame {
+    u8 U,
+    match U as Body {
+        1 : Business,
+    },
+    Business extra,
+}
+
+root packet Wire {
+    TcpFrame,
+    UdpFrame,
+}")).
+Eval vm_compute in ("<<<M1199>>>" ++ check (runes_of_ascii "// top
+options
+    // c0
+{
+    // c1
+}
+    // c2
+options
+    // c3
+{
+    // c4
+MetaDataX
+    // c5
+=
+    // c6
+char
+    // c7
+;
+    // c8
+}
+    // c9
+MetaData
+    // c10
+Pad
+    // c11
+{
+    // c12
+i8
+    // c13
+metadata
+    // c14
+,
+    // c15
+string
+    // c16
+stringy
+    // c17
+,
+    // c18
+int8
+    // c19
+As
+    // c20
+`{ , }`
+    // c21
+,
+    // c22
+}
+    // c23
+")).
+Eval vm_compute in ("<<<M1587>>>" ++ check (runes_of_ascii "MetaData o {
+    MetaDataX As `crlf
+        line`,
+    string_ T,
+    zchar[1] Header,//	t
+}
+
+packet packetx {
+    // " ++ [128512]%N ++ runes_of_ascii " emoji
+    repeat char[10] crc `a\`,
+    @tag(42)
+    repeat char[] asx `// not a comment`,
+    zchar[007] len @lengthOf(u) `a\`,
+    @leftPad('\x00')
+    @tag(3)
+    @calculatedFrom(""a\""b"")
+    char[10] As `
+        `,
+}")).
+Eval vm_compute in ("<<<M130>>>" ++ check (runes_of_ascii "root packet
+    Z9_ { repeat /// triple
+MetaDataX { stringy ,
+    u32 pack , // @lengthOf(
+}
+    , } options
+{
+repeatCount =""it's"" metadata
+=
+""abc""
+A = // `tick` ""quote"" 'q'
+""CRC32"" ; x_y_z = // a // b
+char[ 007	] ;
+    } MetaData i8i8 {uint32  charz // a // b
+`doc`
+, //	t
+}root packet trueish { }")).
+Eval vm_compute in ("<<<M24>>>" ++ check (runes_of_ascii "packet float
+// trailing space 
+// c
+{ @leftPad (' ')repeat char[] MetaDataX , @leftPad (
+)
+    i16 x_y_z @calculatedFrom( ""CRC32""
+)
+, }packet chars {
+    } packet asx
+{
+@tag( 255)
+@tag( 4294967296 ) @calculatedFrom(
+""{,}""
+    // c
+    )
+matchKey /// triple
+o `
+` ,}
+")).
+Eval vm_compute in ("<<<M536>>>" ++ check (runes_of_ascii "packet
+    asx { @calculatedFrom(
+""""  ) @tag( 255 )repeat
+// packet A { u8 x, }
+// trailing space 
+int16 u8x
+,
+@tag(
+    //
+    007 )
+    @tag( @lengthOf0
+    /// triple
+    ) @tag( 1) u
+    @lengthOf( T ),
+// `tick` ""quote"" 'q'
+//x
+} // " ++ [128512]%N ++ runes_of_ascii " emoji")).
+Eval vm_compute in ("<<<M397>>>" ++ check (runes_of_ascii "packet
+    asx { { @calculatedFrom(
+""""  ) @tag( 255 )repeat
+// packet A { u8 x, }
+// trailing space 
+int16 u8x
+,
+@tag(
+    //
+    007 )
+    @tag( 0
+    /// triple
+    ) @tag( 1) u
+    @lengthOf( T ),
+// `tick` ""quote"" 'q'
+//x
+} // " ++ [128512]%N ++ runes_of_ascii " emoji")).
+Eval vm_compute in ("<<<M393>>>" ++ check (runes_of_ascii "packet
+    { asx @calculatedFrom(
+""""  ) @tag( 255 )repeat
+// packet A { u8 x, }
+// trailing space 
+int16 u8x
+,
+@tag(
+    //
+    007 )
+    @tag( 0
+    /// triple
+    ) @tag( 1) u
+    @lengthOf( T ),
+// `tick` ""quote"" 'q'
+//x
+} // " ++ [128512]%N ++ runes_of_ascii " emoji")).
+Eval vm_compute in ("<<<M519>>>" ++ check (runes_of_ascii "packet
+    asx { @calculatedFrom(
+""""  ) @tag( 255 )repeat
+// packet A { u8 x, }
+// trailing space 
+int16 u8x
+,
+@tag(
+    //
+    007 )
+    @tag( 0
+    /// triple
+    ) @tag( 1) u
+    @lengthOf( T );
+// `tick` ""quote"" 'q'
+//x
+} // " ++ [128512]%N ++ runes_of_ascii " emoji")).
+Eval vm_compute in ("<<<M481>>>" ++ check (runes_of_ascii "packet
+    asx { @calculatedFrom(
+""""  ) @tag( 255 )repeat
+// packet A { u8 x, }
+// trailing space 
+int16 u8x
+,
+@tag(
+    //
+    007 )
+    @tag( 0
+    /// triple
+    )  1) u
+    @lengthOf( T ),
+// `tick` ""quote"" 'q'
+//x
+} // " ++ [128512]%N ++ runes_of_ascii " emoji")).
+Eval vm_compute in ("<<<M1533>>>" ++ check (runes_of_ascii "MetaData repeatCount {
+    u8 x `// not a comment`,// @lengthOf(
+    char[] packetx,
+    u8 float,
+    float32 As `two words`,
+    Z9_ crc `" ++ [233]%N ++ runes_of_ascii "`,
+}
+
+MetaData int {
+    matchKey int,
+    leftPad metadata `100% of %d`,
+}")).
+Eval vm_compute in ("<<<M1299>>>" ++ check (runes_of_ascii "// top
+root
+    // c0
+packet // c1a
+  // c1b
+P
+    // c2
+{
+    // c3
+repeat string
+    // c5
+ss // c6
+, // c7
+repeat
+    // c8
+u16 // c9
+ns
+    // c10
+, // c11a
+  // c11b
+} // c12a
+  // c12b
+")).
+Eval vm_compute in ("<<<M228>>>" ++ check (runes_of_ascii "root packet
+    //	t
+    Logon {zchar[42// packet A { u8 x, }
+]
+// c
+// 50% %s
+uint8x `it's` ,
+    //x
+    @lengthOf( Z9_	) Pad{repeat// `tick` ""quote"" 'q'
+i64_ `" ++ [28040; 24687; 31867; 22411]%N ++ runes_of_ascii "` ,
+},	}
+
+")).
+Eval vm_compute in ("<<<M574>>>" ++ check (runes_of_ascii "MetaData u
+    { } MetaData zchar[
+{ float uint8x
+`100% of %d` ,repeatCount u8x, string_ leftPad
+, i32
+    Foo , int64 x `two words` , calculatedFrom
+stringy `a\` ,
+}
+")).
+Eval vm_compute in ("<<<M652>>>" ++ check (runes_of_ascii "MetaData u
+    { } MetaData o
+{ float uint8x
+`100% of %d` ,repeatCount u8x, string_ leftPad
+, i32
+    Foo , int64 x x `two words` , calculatedFrom
+stringy `a\` ,
+}
+")).
+Eval vm_compute in ("<<<M578>>>" ++ check (runes_of_ascii "MetaData u
+    { } MetaData o
+float { uint8x
+`100% of %d` ,repeatCount u8x, string_ leftPad
+, i32
+    Foo , int64 x `two words` , calculatedFrom
+stringy `a\` ,
+}
+")).
+Eval vm_compute in ("<<<M576>>>" ++ check (runes_of_ascii "MetaData u
+    { } MetaData o
+ float uint8x
+`100% of %d` ,repeatCount u8x, string_ leftPad
+, i32
+    Foo , int64 x `two words` , calculatedFrom
+stringy `a\` ,
+}
+")).
+Eval vm_compute in ("<<<M581>>>" ++ check (runes_of_ascii "MetaData u
+    { } MetaData o
+{  uint8x
+`100% of %d` ,repeatCount u8x, string_ leftPad
+, i32
+    Foo , int64 x `two words` , calculatedFrom
+stringy `a\` ,
+}
+")).
+Eval vm_compute in ("<<<M591>>>" ++ check (runes_of_ascii "MetaData u
+    { } MetaData o
+{ float uint8x
+ ,repeatCount u8x, string_ leftPad
+, i32
+    Foo , int64 x `two words` , calculatedFrom
+stringy `a\` ,
+}
+")).
+Eval vm_compute in ("<<<M1412>>>" ++ check (runes_of_ascii "packet lengthOf {
+    len charz `it's`,
+}
+
+options {
+}
+
+packet metadata {
+    string Pad @calculatedFrom(""" ++ [128512]%N ++ runes_of_ascii """) `crlf
+        line`,
+}// " ++ [128512]%N ++ runes_of_ascii " emoji")).
+Eval vm_compute in ("<<<M1672>>>" ++ check (runes_of_ascii "root packet matchKey {
+    Z9_ @calculatedFrom(""""),
+}
+
+MetaData pack {
+    u32 leftPad,
+    x zchar,
+    uint32 i8i8,
+    u16 zchar,
+}")).
+Eval vm_compute in ("<<<M1539>>>" ++ check (runes_of_ascii "options {
+} options{ 
+MetaDataX  = char	;
+} MetaData
+Pad {  // c
+
+i8
+    metadata 
+,
+string stringy 
+, int8  As
+
+`{ , }`
+
+,}")).
+Eval vm_compute in ("<<<M278>>>" ++ check (runes_of_ascii "options { A =
+""\n""
+    ; // @lengthOf(
+len = ' ' ;body =
+4294967296
+    ;	int=3 charz ='0' }
+// packet A { u8 x, }
+")).
+Eval vm_compute in ("<<<M1217>>>" ++ check (runes_of_ascii "options { } options { MetaDataX = char // c
+; } MetaData Pad { i8 metadata , string stringy , int8 As `{ , }` , }")).
+Eval vm_compute in ("<<<M1588>>>" ++ check (runes_of_ascii "
+
+  packet	order_item
+
+    {u8	a
+
+    ,
+	}
+root
+
+    packet 
+new_order 
+{
+	order_item ,
+u8
+x
+
+    , 
+}
+")).
+Eval vm_compute in ("<<<M906>>>" ++ check (runes_of_ascii "packet A {
+  match k as n {
+    [1, ""bb"", 007, ""d"", 5, ""f"", 7, ""h"", 9, ""j"", 11, ""l""] : B,
+    2 : C
+  },
+}")).
+Eval vm_compute in ("<<<M887>>>" ++ check (runes_of_ascii "packet A {
+  match k as n {
+    [""a"", ""bb"", 007, ""d"", ""e"", 66, ""g"", ""h"", 9, ""j""] : B
+    2 : C
+  },
+}")).
+Eval vm_compute in ("<<<M902>>>" ++ check (runes_of_ascii "packet A {
+  match k as n {
+    [1, 22, 007, 4, 5, 66, 7, 8, 9, 10, 11, 12] : B,
+    2 : C
+  },
+}")).
+Eval vm_compute in ("<<<M1464>>>" ++ check (runes_of_ascii "
+root packet SimpleMessage{	uint16 MsgType
+    `" ++ [28040; 24687; 31867; 22411]%N ++ runes_of_ascii "`  ,  string
+	JsonBody
+
+`Json" ++ [23383; 31526; 20018; 28040; 24687; 20307]%N ++ runes_of_ascii "` 
+,}")).
+Eval vm_compute in ("<<<M848>>>" ++ check (runes_of_ascii "packet A {
+  match k as n {
+    [""a"", ""bb"", 007, ""d"", ""e"", 66, ""g""] : B
+    2 : C
+  },
+}")).
+Eval vm_compute in ("<<<M841>>>" ++ check (runes_of_ascii "packet A {
+  match k as n {
+    [1, ""bb"", 007, ""d"", 5, ""f"", 7] : B,
+    2 : C
+  },
+}")).
+Eval vm_compute in ("<<<M1578>>>" ++ check (runes_of_ascii "packet A {
+    B b `
+        `,
+    B `
+        `,
+    repeat B bs `
+        `,
+}")).
+Eval vm_compute in ("<<<M1139>>>" ++ check (runes_of_ascii "// top
+root
+    // c0
 packet
-
-A{ u8
-
-    x
-`a
-b` ,
+    // c1
+a1
+    // c2
+{
+    // c3
 }
+    // c4
 ")).
-Eval vm_compute in ("<<<M1295>>>" ++ check (runes_of_ascii "root packet P {
-    string s,
-}
-")).
-Eval vm_compute in ("<<<M1072>>>" ++ check (runes_of_ascii "packet A {
- u8 x `d" ++ [65279]%N ++ runes_of_ascii "`, // c" ++ [65279]%N ++ runes_of_ascii "
+Eval vm_compute in ("<<<M811>>>" ++ check (runes_of_ascii "packet A {
+  match k as n {
+    [1, 22, 007, 4, 5] : B,
+    2 : C
+  },
 }")).
-Eval vm_compute in ("<<<M927>>>" ++ check (runes_of_ascii "packet A {
-    u8 x `
-`,
-}")).
-Eval vm_compute in ("<<<M1149>>>" ++ check (runes_of_ascii "root packet a1 { // c
-}")).
-Eval vm_compute in ("<<<M306>>>" ++ check (runes_of_ascii "//
-packet int{ }
+Eval vm_compute in ("<<<M171>>>" ++ check (runes_of_ascii "MetaData
 //
-")).
-Eval vm_compute in ("<<<M1050>>>" ++ check (runes_of_ascii "packet A {
+// " ++ [128512]%N ++ runes_of_ascii " emoji
+falsey { char[] f32a
+, //	t
+} packet
+As{
 }
-// c" ++ [11]%N)).
-Eval vm_compute in ("<<<M1053>>>" ++ check (runes_of_ascii "packet A {
-}// c" ++ [12]%N)).
-Eval vm_compute in ("<<<M1933>>>" ++ check (runes_of_ascii "packet u8x {
+")).
+Eval vm_compute in ("<<<M780>>>" ++ check (runes_of_ascii "packet A {
+  match k as n {
+    [1, ""bb""] : B,
+    2 : C
+  },
 }")).
-Eval vm_compute in ("<<<M1039>>>" ++ check (runes_of_ascii "// c" ++ [8239]%N)).
+Eval vm_compute in ("<<<M1521>>>" ++ check (runes_of_ascii "options {
+}
+
+packet Foo {
+    // 50% %s
+    // @lengthOf(
+}")).
+Eval vm_compute in ("<<<M230>>>" ++ check (runes_of_ascii "MetaData // " ++ [27880; 37322]%N ++ runes_of_ascii "
+Foo {
+rootA f32a
+    //
+    , }
+//	t
+")).
+Eval vm_compute in ("<<<M1470>>>" ++ check (runes_of_ascii "root 
+packet
+A
+
+{	u8 x `100% of %s %d %v`	, }
+
+")).
+Eval vm_compute in ("<<<M973>>>" ++ check (runes_of_ascii "MetaData M {
+    u8 x `%`,
+    T t `%`,
+}")).
+Eval vm_compute in ("<<<M1182>>>" ++ check (runes_of_ascii "
+// c
+options { A = ""// no comment"" }")).
+Eval vm_compute in ("<<<M365>>>" ++ check (runes_of_ascii "
+MetaData x_y_z {// c
+Pad roots , }")).
+Eval vm_compute in ("<<<M1062>>>" ++ check (runes_of_ascii "packet A {
+ u8 x `d 	`, // c 	
+}")).
+Eval vm_compute in ("<<<M1037>>>" ++ check (runes_of_ascii "packet A {
+ u8 x `d" ++ [8233]%N ++ runes_of_ascii "`, // c" ++ [8233]%N ++ runes_of_ascii "
+}")).
+Eval vm_compute in ("<<<M1084>>>" ++ check (runes_of_ascii "packet A {
+}// a// b// c
+")).
+Eval vm_compute in ("<<<M1144>>>" ++ check (runes_of_ascii "root
+// c
+packet a1 { }")).
+Eval vm_compute in ("<<<M150>>>" ++ check (runes_of_ascii "options //	t
+{
+    }")).
+Eval vm_compute in ("<<<M1046>>>" ++ check (runes_of_ascii "// c" ++ [8287]%N ++ runes_of_ascii "
+packet A {
+}")).
+Eval vm_compute in ("<<<M1043>>>" ++ check (runes_of_ascii "packet A {
+}// c" ++ [8287]%N)).
+Eval vm_compute in ("<<<M746>>>" ++ check (runes_of_ascii "uint64 int16 {")).
+Eval vm_compute in ("<<<M1019>>>" ++ check (runes_of_ascii "// c" ++ [8192]%N)).
